@@ -226,22 +226,30 @@ section json
 open StdJson
 
 /-- FULL statement wanted: `de (text (ser v)) = v` for every JSON-representable typed value.
-    Proved here for the codec of std/json/{ser,de}.glu on Int/Bool/String/Float/Option/Array types
-    without `Option (Option _)`, ASSUMING the text layer reads back every float it printed (`hrd`).
-    That assumption is false for the real implementation (`json_float_roundtrip_fails`). -/
-theorem json_de_ser_partial (rd : Nat → Nat) (hrd : ∀ b, rd b = b) (t : Ty) (h : Representable t)
-    (v : t.den) : de rd t (ser t v) = some v :=
+    Proved for the codec of std/json/{ser,de}.glu on all types built from Int/Bool/String/Float/Option/
+    Array without `Option (Option _)`, through the text layer of the code as it is (`textCodec`:
+    serde_json with `float_roundtrip`, fix dbce32d – no hypothesis about floats any more). Still
+    `_partial` because records, `Map String` and derived variants are covered by the oracle only. -/
+theorem json_de_ser_partial (t : Ty) (h : Representable t) (v : t.den) :
+    de textCodec t (ser t v) = some v :=
+  de_ser textCodec (fun _ => rfl) t h v
+
+/-- The same for ANY text layer that reads back the floats it printed (what the fix had to establish). -/
+theorem json_de_ser_of_exact_text_layer (rd : Nat → Nat) (hrd : ∀ b, rd b = b) (t : Ty)
+    (h : Representable t) (v : t.den) : de rd t (ser t v) = some v :=
   de_ser rd hrd t h v
 
-/-- Bit patterns observed on the unchanged implementation (replay/known finding
-    `json:de-float-off-by-ulp`): the float -2.6718800418338653e135 is printed by std.json.ser and
-    read back by std.json.de as -2.671880041833865e135, one unit in the last place away. -/
-def observedRd (b : Nat) : Nat := if b = 0xdc0d6881c1e92ae4 then 0xdc0d6881c1e92ae3 else b
+/-- Regression statement about the OLD text layer (before dbce32d; former known finding
+    `json:de-float-off-by-ulp`, input kept in corpus/C19): the float -2.6718800418338653e135 was printed
+    by std.json.ser and read back by std.json.de one unit in the last place away, so the round trip
+    was not the identity. -/
+theorem json_float_roundtrip_old_rule_fails :
+    de oldTextCodec .float (ser .float (0xdc0d6881c1e92ae4 : Nat)) ≠ some (0xdc0d6881c1e92ae4 : Nat) := by
+  show (some (oldTextCodec 0xdc0d6881c1e92ae4) : Option Nat) ≠ some 0xdc0d6881c1e92ae4
+  simp [oldTextCodec]
 
-theorem json_float_roundtrip_fails :
-    de observedRd .float (ser .float (0xdc0d6881c1e92ae4 : Nat)) ≠ some (0xdc0d6881c1e92ae4 : Nat) := by
-  show (some (observedRd 0xdc0d6881c1e92ae4) : Option Nat) ≠ some 0xdc0d6881c1e92ae4
-  simp [observedRd]
+/-- … and the same float now survives. -/
+example : de textCodec .float (ser .float (0xdc0d6881c1e92ae4 : Nat)) = some (0xdc0d6881c1e92ae4 : Nat) := rfl
 
 /-- `Option (Option a)` is not representable: `Some None` and `None` serialise alike. -/
 theorem json_nested_option_fails :
